@@ -342,8 +342,10 @@ def abiAllowed (f : Fn) (abi : LLAbi) : Bool := abi == .sync || f.witAsync
 def importsOfFn (k : Key) (f : Fn) : List Imp :=
   [funcImport .sync k f] ++ (if f.witAsync then [funcImport .asyncCallback k f] else []) ++ fsAll k f false
 
+/-- (`task.return` itself carries no `async` option: `dummy_module` imports it for every exported
+function as soon as the ABI is async, and the encoder accepts it) -/
 def importsOfExportedFn (k : Key) (f : Fn) : List Imp :=
-  (if f.witAsync then [taskReturn k f] else []) ++ fsAll k f true
+  taskReturn k f :: fsAll k f true
 
 def importsOfItem : Item → List Imp
   | .iface i =>
